@@ -223,14 +223,22 @@ func verifyCertificateSignature(
 		return err
 	}
 
+	// The declared algorithm must be one the certificate's key can produce:
+	// the key type alone must never decide how the signature is checked.
 	switch pubKey := certificate.PublicKey.(type) {
 	case ed25519.PublicKey:
+		if signatureAlgorithm != signature.Ed25519 {
+			return dtlserrors.ErrInvalidSignatureAlgorithm
+		}
 		if ok := ed25519.Verify(pubKey, message, remoteKeySignature); !ok {
 			return dtlserrors.ErrKeySignatureMismatch
 		}
 
 		return nil
 	case *ecdsa.PublicKey:
+		if signatureAlgorithm != signature.ECDSA {
+			return dtlserrors.ErrInvalidSignatureAlgorithm
+		}
 		ecdsaSig := &ecdsaSignature{}
 		if _, err := asn1.Unmarshal(remoteKeySignature, ecdsaSig); err != nil {
 			return err
@@ -239,13 +247,22 @@ func verifyCertificateSignature(
 			return dtlserrors.ErrInvalidECDSASignature
 		}
 		hashed := hashAlgorithm.Digest(message)
+		if len(hashed) == 0 {
+			return dtlserrors.ErrInvalidHashAlgorithm
+		}
 		if !ecdsa.Verify(pubKey, hashed, ecdsaSig.R, ecdsaSig.S) {
 			return dtlserrors.ErrKeySignatureMismatch
 		}
 
 		return nil
 	case *rsa.PublicKey:
+		if signatureAlgorithm != signature.RSA && !signatureAlgorithm.IsPSS() {
+			return dtlserrors.ErrInvalidSignatureAlgorithm
+		}
 		hashed := hashAlgorithm.Digest(message)
+		if len(hashed) == 0 {
+			return dtlserrors.ErrInvalidHashAlgorithm
+		}
 
 		// Use RSA-PSS verification if the signature algorithm is PSS
 		if signatureAlgorithm.IsPSS() {
